@@ -137,7 +137,7 @@ Qed.
 (** ** the resolution rule over two MemoryFS layers (C09) *)
 Notation mstate := (gmap (list (list N)) memfile).
 Definition mstore2 (s0 s1 : mstate) (hs : list hstate) (lg : list (nat * fscall)) (ft : option (nat * nat)) : store :=
-  mkStore [BMem s0; BMem s1] hs lg ft.
+  mkStore [BMem s0; BMem s1] hs lg ft IoOff.
 Definition v0 : vfs := mkVfs 0 (fun c => Call (BFs 0 c) Ret).
 Definition v1 : vfs := mkVfs 1 (fun c => Call (BFs 1 c) Ret).
 
